@@ -1,6 +1,8 @@
 mod ast;
 mod c01;
 mod c03;
+mod c05;
+mod c06;
 mod c07;
 mod c13;
 mod c17;
@@ -13,6 +15,7 @@ mod keys;
 mod policy;
 mod rsm;
 mod sat;
+mod spec;
 mod terms;
 mod world;
 
@@ -70,6 +73,8 @@ fn main() {
         "C02" => c01::run(c01::Prop::C02, tier),
         "C09" => c01::run(c01::Prop::C09, tier),
         "C03" => c03::run(tier),
+        "C05" => c05::run(tier),
+        "C06" => c06::run(tier),
         "C07" => c07::run(tier),
         "C13" => c13::run(tier),
         "C17" => c17::run(tier),
